@@ -11,8 +11,10 @@
      "freq"   24-bit frequency in 100 Hz units; value is [q |-> Hz \div 100, r |-> Hz % 100]
      "freqx"  as "freq", with the 2.4 GHz rule of the Semtech 2.4 GHz physical-layer proposal
               (>= 2.4 GHz is coded in 200 Hz units) - only NewChannelReq
-     "chmask" 16 channel bits, value is a sequence of 16 0/1 (element i+1 = channel i = bit i)
-   Special groups: n = 4, kind "u32" - a 32-bit little-endian integer kept as its 4 bytes.
+     "chmask" w bits (16 for ChMask), value is a sequence of w 0/1 (element i+1 = bit i)
+   Special single-field groups (whole bytes): kind "u32"/"raw" - the n bytes as transmitted (e.g. a 32-bit
+   little-endian integer kept as its 4 bytes); "rev" - n bytes transmitted in reverse order (identifiers);
+   "u24" - 3 bytes on the wire for a value kept as 4 little-endian bytes whose top byte must be 0.
 
    `must` is the set of wire values a sender MUST be able to express (the specification's defined
    range); wire values outside `must` but inside the field width are RFU *values* (DON'T-CARE for
@@ -82,9 +84,6 @@ HasPayload(dir, cid) == cid \in StdCIDsWithPayload(dir)
 
 LayoutSize(lay) == FoldLeft(LAMBDA acc, g : acc + g.n, 0, lay)
 Size(dir, cid) == IF HasPayload(dir, cid) THEN LayoutSize(Layout(dir, cid)) ELSE 0
-WidthsOK(lay) == \A i \in 1..Len(lay) :
-                   FoldLeft(LAMBDA acc, f : acc + f.w, 0, lay[i].fields) = 8 * lay[i].n
-
 \* ---- field level -------------------------------------------------------------------------------
 \* wire value of a field value, or -1 when the value does not fit the field (Unrepresentable)
 WireVal(f, x) ==
@@ -96,7 +95,7 @@ WireVal(f, x) ==
     [] f.kind = "freqx"  -> IF x.q >= 24000000
                               THEN (IF x.r = 0 /\ x.q % 2 = 0 /\ x.q \div 2 < 16777216 THEN x.q \div 2 ELSE -1)
                               ELSE (IF x.r = 0 /\ x.q < 12000000 THEN x.q ELSE -1)
-    [] f.kind = "chmask" -> FoldLeft(LAMBDA acc, i : acc + x[i] * Pow2(i - 1), 0, [i \in 1..16 |-> i])
+    [] f.kind = "chmask" -> FoldLeft(LAMBDA acc, i : acc + x[i] * Pow2(i - 1), 0, [i \in 1..f.w |-> i])
 
 FieldVal(f, wv) ==
   CASE f.kind = "uint"   -> wv
@@ -104,7 +103,7 @@ FieldVal(f, wv) ==
     [] f.kind = "s6"     -> IF wv >= 32 THEN wv - 64 ELSE wv
     [] f.kind = "freq"   -> [q |-> wv, r |-> 0]
     [] f.kind = "freqx"  -> IF wv >= 12000000 THEN [q |-> 2 * wv, r |-> 0] ELSE [q |-> wv, r |-> 0]
-    [] f.kind = "chmask" -> [i \in 1..16 |-> (wv \div Pow2(i - 1)) % 2]
+    [] f.kind = "chmask" -> [i \in 1..f.w |-> (wv \div Pow2(i - 1)) % 2]
 
 \* The 2.4 GHz rule makes 100-Hz-unit wire values in [12e6, 2^24) ambiguous (1.2-1.68 GHz in
 \* 100 Hz units vs 2.4-3.36 GHz in 200 Hz units); the Semtech rule is taken: such frequencies
@@ -113,14 +112,22 @@ FieldVal(f, wv) ==
 Offsets(fields) == [i \in 1..Len(fields) |->
                       FoldLeft(LAMBDA acc, j : acc + fields[j].w, 0, [j \in 1..(i - 1) |-> j])]
 
-IsU32(g) == g.n = 4 /\ g.fields[1].kind = "u32"
+IsU32(g) == g.fields[1].kind \in {"u32", "raw", "rev", "u24"}
+RawG(name, n) == G(n, <<FM(name, 0, "raw", {})>>)
+RevG(name, n) == G(n, <<FM(name, 0, "rev", {})>>)
+U24G(name) == G(3, <<FM(name, 0, "u24", {})>>)
+RawWire(g, x) == CASE g.fields[1].kind = "rev" -> Rev(x) [] g.fields[1].kind = "u24" -> SubSeq(x, 1, 3) [] OTHER -> x
+RawValue(g, b) == CASE g.fields[1].kind = "rev" -> Rev(b) [] g.fields[1].kind = "u24" -> b \o <<0>> [] OTHER -> b
+RawOK(g, x) == IF g.fields[1].kind = "u24" THEN Len(x) = 4 /\ x[4] = 0 ELSE Len(x) = g.n
+WidthsOK(lay) == \A i \in 1..Len(lay) : IsU32(lay[i]) \/
+                   FoldLeft(LAMBDA acc, f : acc + f.w, 0, lay[i].fields) = 8 * lay[i].n
 
 GroupRepresentable(g, v) ==
-  IF IsU32(g) THEN Len(v[g.fields[1].name]) = 4
+  IF IsU32(g) THEN RawOK(g, v[g.fields[1].name])
   ELSE \A i \in 1..Len(g.fields) : g.fields[i].kind = "rfu" \/ WireVal(g.fields[i], v[g.fields[i].name]) # -1
 
 EncodeGroup(g, v) ==
-  IF IsU32(g) THEN v[g.fields[1].name]
+  IF IsU32(g) THEN RawWire(g, v[g.fields[1].name])
   ELSE LET off == Offsets(g.fields)
            total == FoldLeft(LAMBDA acc, i :
                        acc + (IF g.fields[i].kind = "rfu" THEN 0
@@ -132,15 +139,15 @@ Representable(lay, v) == \A i \in 1..Len(lay) : GroupRepresentable(lay[i], v)
 EncodeLayout(lay, v) == Concat([i \in 1..Len(lay) |-> EncodeGroup(lay[i], v)])
 
 \* sender obligations: every field inside the specification's defined range
-InMust(f, x) == f.kind = "rfu" \/ f.kind = "u32" \/ (WireVal(f, x) # -1 /\ (f.kind \notin {"uint"} \/ WireVal(f, x) \in f.must))
+InMust(f, x) == f.kind = "rfu" \/ f.kind \in {"u32", "raw", "rev", "u24"} \/ (WireVal(f, x) # -1 /\ (f.kind \notin {"uint"} \/ WireVal(f, x) \in f.must))
 MustAccept(lay, v) == \A i \in 1..Len(lay) : \A j \in 1..Len(lay[i].fields) :
-                         LET f == lay[i].fields[j] IN f.kind = "rfu" \/ (IF f.kind = "u32" THEN Len(v[f.name]) = 4 ELSE InMust(f, v[f.name]))
+                         LET f == lay[i].fields[j] IN f.kind = "rfu" \/ (IF IsU32(lay[i]) THEN RawOK(lay[i], v[f.name]) ELSE InMust(f, v[f.name]))
 
 \* decode: bytes (exactly LayoutSize long) -> record of field values, RFU bits ignored
 DecodeLayout(lay, bytes) ==
   LET starts == [i \in 1..Len(lay) |-> FoldLeft(LAMBDA acc, j : acc + lay[j].n, 0, [j \in 1..(i - 1) |-> j])]
       pairs == UNION { IF IsU32(lay[i])
-                         THEN {<<lay[i].fields[1].name, SubSeq(bytes, starts[i] + 1, starts[i] + 4)>>}
+                         THEN {<<lay[i].fields[1].name, RawValue(lay[i], SubSeq(bytes, starts[i] + 1, starts[i] + lay[i].n))>>}
                          ELSE LET g == lay[i]
                                   x == LEVal(SubSeq(bytes, starts[i] + 1, starts[i] + g.n))
                                   off == Offsets(g.fields)
